@@ -23,7 +23,7 @@ theorem addLf_adv {s s1 : St} {u : Unit} (h : addLf s = .ok (u, s1)) : Adv s s1 
   · simp [hl, pure] at h
     rw [← h]; exact Adv.refl s
   · simp [hl, addStartLine, Tr.modify] at h
-    rw [← h]; exact ⟨rfl, rfl, rfl, rfl, rfl, rfl, rfl, rfl, rfl⟩
+    rw [← h]; exact ⟨rfl, rfl, rfl, rfl, rfl, rfl, rfl, rfl, rfl, by simp⟩
 
 theorem stringToString_ok {lit t : String} {s s1 : St} (h : stringToString lit s = .ok (t, s1)) :
     t = escapeB lit ∧ Adv s s1 [] 0 := by
@@ -132,7 +132,7 @@ theorem exprB_sem : ∀ (e : Expr) (used : Bool) (s : St) (r : List String) (s' 
         injection hop' with hop'
         injection hop' with e1 e2
         subst e1; subst e2
-        exact semB_unary ix (fun tx => .ifSet "" tx "equ" "1" (helperName s1.varCounter) "0" "1")
+        exact semB_unary ix (fun tx => .ifSet "" tx "equ" "1" (helperName s1.varCounter) "0" "1") (fun _ => rfl)
           (fun ρ out k tx hx => stepB_not out _ hx)
       · simp at hs
     · simp at hs
@@ -170,7 +170,7 @@ theorem exprB_sem : ∀ (e : Expr) (used : Bool) (s : St) (r : List String) (s' 
               injection hop' with hop'
               injection hop' with e1 e2
               subst e1; subst e2
-              exact semB_binary il ir (fun tl tr => .setA (helperName s2.varCounter) tl op tr)
+              exact semB_binary il ir (fun tl tr => .setA (helperName s2.varCounter) tl op tr) (fun _ _ => rfl)
                 (fun ρ out k tl tr h1 h2 => stepB_arith out _ h1 h2 hrd.1 hrd.2 hz)
           · simp at hs
         · rename_i x y hdt
@@ -184,7 +184,7 @@ theorem exprB_sem : ∀ (e : Expr) (used : Bool) (s : St) (r : List String) (s' 
             injection hop' with hop'
             injection hop' with e1 e2
             subst e1; subst e2
-            exact semB_binary il ir (fun tl tr => .set (helperName s2.varCounter) (tl ++ tr))
+            exact semB_binary il ir (fun tl tr => .set (helperName s2.varCounter) (tl ++ tr)) (fun _ _ => rfl)
               (fun ρ out k tl tr h1 h2 => stepB_concat out _ h1 h2)
           · simp at hs
         · simp at hs
@@ -228,7 +228,7 @@ theorem exprB_sem : ∀ (e : Expr) (used : Bool) (s : St) (r : List String) (s' 
             injection hop' with hop'
             injection hop' with e1 e2
             subst e1; subst e2
-            refine semB_binary il ir (fun tl tr => .ifSet (compareOpString "==" ⟨.bool, false⟩).2 tl (compareOpString "==" ⟨.bool, false⟩).1 tr (helperName s2.varCounter) "1" "0")
+            refine semB_binary il ir (fun tl tr => .ifSet (compareOpString "==" ⟨.bool, false⟩).2 tl (compareOpString "==" ⟨.bool, false⟩).1 tr (helperName s2.varCounter) "1" "0") (fun _ _ => rfl)
               (fun ρ out k tl tr h1 h2 => ?_)
             have := stepB_cmp_bool (os := "equ") (v := (x == y)) out (helperName s2.varCounter) h1 h2
               (by cases x <;> cases y <;> simp [numIf])
@@ -243,7 +243,7 @@ theorem exprB_sem : ∀ (e : Expr) (used : Bool) (s : St) (r : List String) (s' 
               injection hop' with hop'
               injection hop' with e1 e2
               subst e1; subst e2
-              refine semB_binary il ir (fun tl tr => .ifSet (compareOpString "!=" ⟨.bool, false⟩).2 tl (compareOpString "!=" ⟨.bool, false⟩).1 tr (helperName s2.varCounter) "1" "0")
+              refine semB_binary il ir (fun tl tr => .ifSet (compareOpString "!=" ⟨.bool, false⟩).2 tl (compareOpString "!=" ⟨.bool, false⟩).1 tr (helperName s2.varCounter) "1" "0") (fun _ _ => rfl)
                 (fun ρ out k tl tr h1 h2 => ?_)
               have := stepB_cmp_bool (os := "neq") (v := (x != y)) out (helperName s2.varCounter) h1 h2
                 (by cases x <;> cases y <;> simp [numIf])
@@ -265,7 +265,7 @@ theorem exprB_sem : ∀ (e : Expr) (used : Bool) (s : St) (r : List String) (s' 
               injection hop' with hop'
               injection hop' with e1 e2
               subst e1; subst e2
-              exact semB_binary il ir (fun tl tr => .ifSet "" tl (compareOpString op ⟨.int, false⟩).1 tr (helperName s2.varCounter) "1" "0")
+              exact semB_binary il ir (fun tl tr => .ifSet "" tl (compareOpString op ⟨.int, false⟩).1 tr (helperName s2.varCounter) "1" "0") (fun _ _ => rfl)
                 (fun ρ out k tl tr h1 h2 => stepB_cmp_num out _ h1 h2 hrd.1 hrd.2 g3)
           · simp at hs
         · -- string
@@ -281,7 +281,7 @@ theorem exprB_sem : ∀ (e : Expr) (used : Bool) (s : St) (r : List String) (s' 
             injection hop' with hop'
             injection hop' with e1 e2
             subst e1; subst e2
-            refine semB_binary il ir (fun tl tr => .ifSet (compareOpString "==" ⟨.string, false⟩).2 tl (compareOpString "==" ⟨.string, false⟩).1 tr (helperName s2.varCounter) "1" "0")
+            refine semB_binary il ir (fun tl tr => .ifSet (compareOpString "==" ⟨.string, false⟩).2 tl (compareOpString "==" ⟨.string, false⟩).1 tr (helperName s2.varCounter) "1" "0") (fun _ _ => rfl)
               (fun ρ out k tl tr h1 h2 => ?_)
             have := stepB_cmp_streq out (helperName s2.varCounter) h1 h2
             simpa [compareOpString, Src.Val.render] using this
@@ -295,7 +295,7 @@ theorem exprB_sem : ∀ (e : Expr) (used : Bool) (s : St) (r : List String) (s' 
               injection hop' with hop'
               injection hop' with e1 e2
               subst e1; subst e2
-              refine semB_binary il ir (fun tl tr => .ifSet (compareOpString "!=" ⟨.string, false⟩).2 tl (compareOpString "!=" ⟨.string, false⟩).1 tr (helperName s2.varCounter) "1" "0")
+              refine semB_binary il ir (fun tl tr => .ifSet (compareOpString "!=" ⟨.string, false⟩).2 tl (compareOpString "!=" ⟨.string, false⟩).1 tr (helperName s2.varCounter) "1" "0") (fun _ _ => rfl)
                 (fun ρ out k tl tr h1 h2 => ?_)
               have := stepB_cmp_strne out (helperName s2.varCounter) h1 h2
               simpa [compareOpString, Src.Val.render] using this
@@ -327,7 +327,7 @@ theorem exprB_sem : ∀ (e : Expr) (used : Bool) (s : St) (r : List String) (s' 
         injection hop' with hop'
         injection hop' with e1 e2
         subst e1; subst e2
-        exact semB_binary il ir (fun tl tr => .andSet tl tr (helperName s2.varCounter))
+        exact semB_binary il ir (fun tl tr => .andSet tl tr (helperName s2.varCounter)) (fun _ _ => rfl)
           (fun ρ out k tl tr h1 h2 => stepB_and out _ h1 h2)
       · split at hs
         · rename_i hne he
@@ -339,7 +339,7 @@ theorem exprB_sem : ∀ (e : Expr) (used : Bool) (s : St) (r : List String) (s' 
           injection hop' with hop'
           injection hop' with e1 e2
           subst e1; subst e2
-          exact semB_binary il ir (fun tl tr => .orSet tl tr (helperName s2.varCounter))
+          exact semB_binary il ir (fun tl tr => .orSet tl tr (helperName s2.varCounter)) (fun _ _ => rfl)
             (fun ρ out k tl tr h1 h2 => stepB_or out _ h1 h2)
         · simp at hs
     · simp at hs
